@@ -110,7 +110,11 @@ def run(ctx, rep):
     rep.rule("T5", "nothing post-processes the diagnostics between the checks and the result: every call on a Vec<Diagnostic> reachable from validation is push / sort (no dedup, retain, truncate), so 'exactly one Error per broken rule' survives to the caller")
     import c03
     c03.append_only_rule(ctx, rep, "C07")
-    rep.not_decided.append("that source types land in the right category (C05)")
+    rep.rule("RES", "inherits C05 rules A-E (re-evaluated here): the category this table is indexed by is the one resolution assigns - walker reaches every type node, resolve_type classifies per AIDL scoping, built-in tables, name-matching predicates")
+    import c05
+    c05.resolution_rules(ctx, rep, "C07")
+    import common_g
+    rep.floor("IN", "grammar actions feeding this rule", common_g.emit_inputs(ctx, rep, "C07"), 5)
     rep.assumptions += ["TB-1 rustc MIR", "TB-4 the tabulator (validated by selftest mutants)",
                         "per-argument loop carries no state between iterations other than the append-only diagnostics vector (checked: only effects are pushes)"]
 
